@@ -69,8 +69,27 @@ def unlimited : Nat := 2^62 - 1
 /-- A numeric setting takes the carried value, else its default. -/
 def numeric (ps : List (Nat × Nat)) (id dflt : Nat) : Nat := (carried ps id).getD dflt
 
-/-- A 0/1 setting (RFC 9220, RFC 9297, WebTransport draft; default 0): 0 is off, 1 is on.  Other
-    values are outside the property's wording (the RFCs make them an error); no demand. -/
+/-- The settings whose defining RFC allows the values 0 and 1 only and makes every other value an error:
+    RFC 9297 §2.1.1 "The value of the SETTINGS_H3_DATAGRAM setting MUST be either 0 or 1. … If the
+    SETTINGS_H3_DATAGRAM setting is received with a value that is neither 0 nor 1, the receiver MUST terminate
+    the connection with error H3_SETTINGS_ERROR."; RFC 8441 §3 (carried over to HTTP/3 by RFC 9220 §3) "The value
+    of the parameter MUST be 0 or 1." — in HTTP/3 an error in the payload of a SETTINGS frame is
+    H3_SETTINGS_ERROR (RFC 9114 §8.1).  Reading R-13b: "applied exactly — known identifiers take effect" is not
+    met by storing "enabled" for a value the defining document does not allow. -/
+def boolean01 : List Nat := [ENABLE_CONNECT_PROTOCOL, H3_DATAGRAM]
+
+/-- a 0/1 setting of `boolean01` carrying a value other than 0 and 1 (in any position, repeated or not) -/
+def hasBadFlag (ps : List (Nat × Nat)) : Bool := ps.any (fun p => boolean01.contains p.1 && decide (1 < p.2))
+
+/-- A 0/1 setting, exactly: on iff the value 1 is carried (absent = the default 0 = off).  Demanded of the
+    settings of `boolean01` (where 0 and 1 are the only values that can be applied at all). -/
+def FlagExact (ps : List (Nat × Nat)) (id : Nat) (b : Bool) : Prop := b = (carried ps id == some 1)
+
+instance (ps : List (Nat × Nat)) (id : Nat) (b : Bool) : Decidable (FlagExact ps id b) := by
+  unfold FlagExact; infer_instance
+
+/-- ENABLE_WEBTRANSPORT (draft-ietf-webtrans-http3-02 §3.1 / §8.2; default 0): 0 is off, 1 is on.  The draft
+    defines no other value and no error for one (unlike the two RFCs above); no demand there. -/
 def FlagOk (ps : List (Nat × Nat)) (id : Nat) (b : Bool) : Prop :=
   match carried ps id with
   | none => b = false
@@ -89,11 +108,12 @@ def flag (ps : List (Nat × Nat)) (id : Nat) : Option Bool :=
   | some 1 => some true
   | some _ => none
 
-/-- The demand on a receiver of `payload` (RFC 9114 §7.2.4/§7.2.4.1 + reading R-13). -/
+/-- The demand on a receiver of `payload` (RFC 9114 §7.2.4/§7.2.4.1 + readings R-13, R-13b). -/
 inductive Demand where
   /-- truncated parameter: a connection error (the property fixes no code) -/
   | anyError
-  /-- reserved or repeated understood identifier: H3_SETTINGS_ERROR -/
+  /-- reserved or repeated understood identifier, or a 0/1 setting of `boolean01` with another value:
+      H3_SETTINGS_ERROR -/
   | settingsError
   /-- only ignored identifiers repeat: apply, or H3_SETTINGS_ERROR -/
   | applyOrError (ps : List (Nat × Nat))
@@ -105,7 +125,7 @@ def demand (payload : Bytes) : Demand :=
   match parse payload with
   | none => .anyError
   | some ps =>
-    if hasReserved ps || repeatsKnown ps then .settingsError
+    if hasReserved ps || repeatsKnown ps || hasBadFlag ps then .settingsError
     else if repeatsUnknown ps then .applyOrError ps
     else .apply ps
 
